@@ -209,6 +209,28 @@ def isotope_control(ctx, rep, clause):
                f'global label reaches atoms inside that modification although use_isotope_on_mods is off',
                f.loc(node), clause)
     rep.floor('SIB-isotope', 'modification-composition accumulations in _sequence_comp', k, 6)
+    # the atoms of the ion-type adjustment (terminal groups, dissociation site) and of the charge carriers belong to the
+    # peptide: they are added to the accumulator that is always labelled, and before it is labelled
+    racc = next(iter(residue_acc))
+    relabel = call_nodes.get(racc)
+    j = 0
+    for acc, src, node in adds:
+        rs = c.resolve(src)
+        what = None
+        if any(isinstance(y, ast.Name) and y.id == 'NEUTRAL_FRAGMENT_COMPOSITION_ADJUSTMENTS' for y in ast.walk(rs)):
+            what = 'the ion-type adjustment'
+        if any(isinstance(y, ast.Call) and norm_stmt(y.func) == '_parse_charge_adducts_comp' for y in ast.walk(rs)):
+            what = 'the charge carriers'
+        if what is None:
+            continue
+        j += 1
+        ok = acc == racc and (relabel is None or node.order < relabel.order)
+        ob(rep, 'SIB-isotope', f.fq, f'{what} are part of the labelled peptide composition', ok,
+           f'added to {racc} before the substitution',
+           f'the atoms of {what} are added to `{acc}`' + ('' if acc != racc else ' after the isotope substitution') +
+           f': a global label no longer reaches them (<18O>PEPTIDE keeps one plain O of the terminal water), while '
+           f'mass() of the same labelled peptide does label them', f.loc(node), clause)
+    rep.floor('SIB-isotope', 'peptide-level additions (ion-type adjustment, charge carriers) in _sequence_comp', j, 2)
     # the relabelling happens only when the annotation carries isotope labels
     from ..guards import dominating_tests
     encl = [norm_stmt(c.resolve(t)) for t, _p in dominating_tests(f.node, blk)]
